@@ -3907,6 +3907,9 @@ def is_filter_pushdown_available(expr, parent, dependents, allow_reduction=True)
     if parent.predicate.ndim == 2:
         # A DataFrame predicate masks individual cells, it does not select rows
         return False
+    if parent.frame._name != expr._name:
+        # expr is (part of) the predicate, not the frame that is filtered
+        return False
     parents = [x() for x in dependents[expr._name] if x() is not None]
     filters = {e._name for e in parents if isinstance(e, Filter)}
     if len(filters) != 1:
